@@ -69,8 +69,16 @@ func (g *gen) genC07impl() {
 			ops = append(ops, op)
 		case n < 56 && !frozen[set]:
 			ops = append(ops, Op{ID: g.id(), Kind: opNew, Set: set, Recv: g.maybeName(names), Name: fmt.Sprintf("N%d", i)})
-		case n < 60:
+		case n < 58:
 			ops = append(ops, g.readOp(set, names))
+		case n < 60:
+			// a setting changed on one set only (isolation is still checked;
+			// the flat-set comparison does not apply to such histories)
+			if g.chance(0.7) {
+				ops = append(ops, Op{ID: g.id(), Kind: opOption, Set: set, Recv: g.maybeName(names), Text: g.pick([]string{"missingkey=error", "missingkey=zero", "missingkey=default"})})
+			} else {
+				ops = append(ops, Op{ID: g.id(), Kind: opCSP, Set: set, Recv: g.maybeName(names)})
+			}
 		case n < 64:
 			// a function registered on one set only, and a text that uses it
 			fn := fmt.Sprintf("fx%d", g.r.Intn(2))
